@@ -225,8 +225,8 @@ def execute(sc):
                         sync_generators(h.chain, old)
                         restarts += 1
                         stats["fault_crash_restart"] += 1
-                except lc.StepExhausted:
-                    stats["hmc_step_exhausted"] += 1
+                except (lc.StepExhausted, rctx.Runaway):
+                    stats["hmc_step_exhausted_or_runaway"] += 1
                     break
                 except LibRaised as e:
                     stats["op_failed_skipped"] += 1  # other checks own op failures
